@@ -49,6 +49,10 @@ def probe(kind: str, tier: str):
         return [Cfg("P", "float", prompt="p", defaults=[(L("1.5"), None)])], {"P": ["5", "1e3", "0.50", "-2.5"]}, ["CONFIG_OLD_P CONFIG_P"]
     if kind == "int_range":
         return [Cfg("P", "int", prompt="p", ranges=[(L("1"), L("9"), None)], defaults=[(L("5"), None)])], {"P": ["99", "-1", "007", "3"]}, ["CONFIG_OLD_P CONFIG_P"]
+    if kind == "range_sym_bounds":
+        # range bounds given by other options; P's value comes from its default / a user value and is clamped by the bounds
+        return [Cfg("LO", "int", prompt="lo", defaults=[(L("1"), None)]), Cfg("HI", "int", prompt="hi", defaults=[(L("9"), None)]),
+                Cfg("P", "int", prompt="p", ranges=[(S("LO"), S("HI"), None)], defaults=[(L("5"), None)])], {"HI": ["3", "7"], "LO": ["6"], "P": ["8"]}, ["CONFIG_OLD_P CONFIG_P"]
     if kind == "bool":
         return [Cfg("P", "bool", prompt="p", defaults=[(L("y"), None)])], {"P": ["n", "y"]}, ["CONFIG_OLD_P CONFIG_P", "CONFIG_OLD_NP !CONFIG_P"]
     if kind == "choice3":
@@ -83,7 +87,7 @@ def probe(kind: str, tier: str):
     raise ValueError(kind)
 
 
-PROBES = ("string", "hex", "float", "int_range", "bool", "choice3", "set_target", "wset_target", "promptless_before", "multi_def", "select_imply", "nonbool_in_choice", "nonbool_direct_in_choice", "float_noncanonical", "hex_int_indirect")
+PROBES = ("string", "hex", "float", "int_range", "range_sym_bounds", "bool", "choice3", "set_target", "wset_target", "promptless_before", "multi_def", "select_imply", "nonbool_in_choice", "nonbool_direct_in_choice", "float_noncanonical", "hex_int_indirect")
 CONTEXTS = ("plain", "prompt_if_before", "prompt_if_after", "depends", "menu_depends", "menu_visible", "if", "comment_menu", "pragma_like_titles")
 
 
@@ -322,6 +326,14 @@ def explore_item(item, r: common.Result, only_history=None):
         r.evals += 1
         roundtrip(h, st, False)
         roundtrip(h, build(h), True)
+        if h:
+            # the same history on a long-lived instance that is read completely after every operation (menuconfig, the
+            # server): what it writes must reproduce ITS values as well -- only examined when it writes something else
+            hl = (("readall",),) + tuple(x for o in h for x in (o, ("readall",)))
+            live = build(hl)
+            if live.config_text() != build(h).config_text():
+                r.count("live_instance_writes_other_text")
+                roundtrip(hl, build(hl), False)
         if any(s._user_value is not None for s in st.k.unique_defined_syms):
             r.outcome((ptext, canon(st)))
 
